@@ -188,3 +188,56 @@ package machine
 //@     invariant val(totalAllocated) == floorsum(a, val(amount)) + min(i, val(amount) - floorsum(a, val(amount)))
 //@     invariant psum(parts) == val(totalAllocated)
 //@     invariant forall j int :: {parts[j]} 0 <= j && j < len(a) ==> parts[j] != nil && val(parts[j]) == (val(amount) * a[j].num) / a[j].den + ((j < i && j < val(amount) - floorsum(a, val(amount))) ? 1 : 0)
+
+// ---- values from strings (json.go, account.go, asset.go): C27, C28 -------------------------------------
+
+//@ assumed func (re *regexp.Regexp) MatchString(s string) (r bool)
+//@   ensures re == accounts.Regexp ==> r == validAddr(s)
+//@   ensures re == assets.Regexp ==> r == validAsset(s)
+
+//@ func ValidateAccountAddress(acc AccountAddress) (err error)
+//@   property C27 C28
+//@   ensures (err == nil) == validAddr(acc)
+
+//@ func ValidateAsset(ass Asset) (err error)
+//@   property C27 C28
+//@   ensures (err == nil) == validAsset(ass)
+
+//@ func ParseMonetary(mon Monetary) (err error)
+//@   property C27 C28
+//@   ensures (err == nil) == (validAsset(mon.Asset) && mon.Amount != nil && val(mon.Amount) >= 0)
+
+//@ func ParseMonetaryInt(s string) (r *MonetaryInt, err error)
+//@   property C27 C28
+//@   ensures err == nil ==> r != nil
+
+//@ declare nsub(re *regexp.Regexp) int
+//@ declare groups(pattern string) int
+//@ axiom groups("^([0-9]+)(?:[.]([0-9]+))?[%]$") == 2
+//@ axiom groups("^([0-9]+)\\s?[/]\\s?([0-9]+)$") == 2
+
+//@ assumed func regexp.MustCompile(str string) (r *regexp.Regexp)
+//@   ensures r != nil && nsub(r) == groups(str)
+
+//@ assumed func (re *regexp.Regexp) FindStringSubmatch(s string) (r []string)
+//@   ensures len(r) == 0 || len(r) == 1 + nsub(re)
+
+//@ func NewPortionSpecific(r big.Rat) (p *Portion, err error)
+//@   property C24 C27
+//@   requires r.den > 0
+//@   ensures err == nil ==> p != nil && !p.Remaining && p.Specific != nil && deref(p.Specific) == r
+//@   ensures err == nil ==> 0 <= r.num && r.num <= r.den
+
+//@ func ParsePortionSpecific(input string) (p *Portion, err error)
+//@   property C24 C27
+//@   ensures err == nil ==> p != nil && !p.Remaining && p.Specific != nil
+
+//@ func NewValueFromString(typ Type, data string) (v Value, err error)
+//@   property C27 C28
+//@   ensures err == nil ==> v != nil
+//@   ensures err == nil && typ == TypeAccount ==> is(v, AccountAddress) && validAddr(v.(AccountAddress))
+//@   ensures err == nil && typ == TypeAsset ==> is(v, Asset) && validAsset(v.(Asset))
+//@   ensures err == nil && typ == TypeNumber ==> is(v, *MonetaryInt) && v.(*MonetaryInt) != nil
+//@   ensures err == nil && typ == TypeMonetary ==> is(v, Monetary) && validAsset(v.(Monetary).Asset) && v.(Monetary).Amount != nil && val(v.(Monetary).Amount) >= 0
+//@   ensures err == nil && typ == TypePortion ==> is(v, Portion) && !v.(Portion).Remaining && v.(Portion).Specific != nil
+//@   ensures err == nil && typ == TypeString ==> is(v, String)
